@@ -247,6 +247,7 @@ func runC11(c *Ctx) {
 	// ---------- C11.c ----------
 	clauseCacheReleaseDiscipline(c, "C11.c")
 	clauseKeyInjective(c, "C11.f", [][2]string{{"fs/reader", "genID"}, {"fs/remote", "(*httpFetcher).genID"}})
+	clauseIncDiscipline(c, "C11.g")
 
 	// ---------- C11.d ----------
 	c.clause("C11.d", "T3+T1", "sync.Pool.Put only after Reset of the same buffer, only in putBuffer and the eviction hooks; on a duplicate Add only the rejected buffer is recycled, on the !added edge", 4)
@@ -417,6 +418,10 @@ func runC12(c *Ctx) {
 	clauseTTLOwnership(c, "C12.a")
 
 	clauseMountRegistrationRolledBack(c, "C12.g")
+	clauseCommitNoEffectWhenClosed(c, "C12.h")
+	clauseURLInstalledOnSuccess(c, "C12.i")
+	clauseCloneNotClosed(c, "C12.j")
+	clauseLayerClosedOnlyByOwner(c, "C12.k")
 
 	// ---------- C12.b ----------
 	c.clause("C12.b", "T2", "resources acquired during Resolve/resolveBlob are released on every later error exit (deferred, guarded by the named error result)", 3)
